@@ -52,7 +52,7 @@ fn ap_of(seed: usize) -> [u8; 16] {
 /// the statement's domain: non-hidden, encodable, 2 + |payload| + |lp| <= 1008
 pub fn hide_cases() -> Vec<HideCase> {
     let mut out = vec![];
-    let all = encodable_plain_avps(false);
+    let all = encodable_plain_avps(true);
     let rvs: [[u8; 4]; 3] = [[0, 0, 0, 0], [0xde, 0xad, 0xbe, 0xef], [0xff, 0xff, 0xff, 0xff]];
     for (i, v) in all.iter().enumerate() {
         let pl = rf::payload_enc(v).len();
@@ -466,7 +466,10 @@ fn enum_facts(field: &str, x: u16) -> EnumFacts {
             EnumFacts { accepted: acc, reencoded: re, named, named_encodes_to: None, detail }
         }
         "attribute-type" => {
-            let payload = sample_value(xx as i64).map(|v| rf::payload_enc(&v)).unwrap_or_else(|| vec![0, 1, 0, 2]);
+            // a typical (not boundary) payload, so that a changed length guard of one kind is not reported as an
+            // attribute-number fault: variable-length kinds get 8 octets
+            let typical = if variable_kinds().iter().any(|k| k.0 == xx as i64) { Some(var_value(xx as i64, 8)) } else { sample_value(xx as i64) };
+            let payload = typical.map(|v| rf::payload_enc(&v)).unwrap_or_else(|| vec![0, 1, 0, 2]);
             let wire = rec(x, &payload);
             let (l, rem) = dec_avps(&wire);
             let detail = format!("decode_avps({}) = {} remaining {rem}", hexz(&wire), show(&l));
